@@ -581,8 +581,33 @@ func families(tier string) []fw.Family {
 			segFamily("arc(r in {.5,1,2,3}^2, rot {0,30,45,90,135}, flags, end [-2..2]^2)"+sfx, curvefam.NArc, arc, f, tols),
 		)
 	}
-	fs = append(fs, twoSegments(tols), twoSubpaths(tols))
+	fs = append(fs, twoSegments(tols), twoSubpaths(tols), thinEllipses(tols))
 	return fs
+}
+
+// thinEllipses: arcs of ellipses with axis ratios 40 and 20 around and next to the tip of the major
+// axis (the cubic that stands in for such an arc is a hairpin), both directions, rotated by 0 and 30 degrees.
+func thinEllipses(tols []float64) fw.Family {
+	rys := []float64{0.5, 1}
+	th0s := []float64{-1.2, -0.6, -0.3, 0.2, 2.6}
+	dths := []float64{0.6, 1.2, 2.4}
+	rotsT := []float64{0, 30}
+	rad := []int{len(rys), len(th0s), len(dths), len(rotsT), 2}
+	return pathFamily("thin ellipses: rx=20, ry in {0.5,1}, arcs around and next to the tip, 2 rotations, both directions", oracle.Prod(rad...), func(i int64) ([]oracle.Subpath, bool) {
+		d := oracle.Digits(i, rad...)
+		rx, ry := 20.0, rys[d[0]]
+		a0, a1 := th0s[d[1]], th0s[d[1]]+dths[d[2]]
+		if d[4] == 1 {
+			a0, a1 = a1, a0
+		}
+		phi := rotsT[d[3]] * math.Pi / 180
+		at := func(a float64) oracle.Pt {
+			x, y := rx*math.Cos(a), ry*math.Sin(a)
+			return oracle.Pt{X: x*math.Cos(phi) - y*math.Sin(phi), Y: x*math.Sin(phi) + y*math.Cos(phi)}
+		}
+		s := oracle.MkArc(at(a0), rx, ry, rotsT[d[3]], math.Abs(a1-a0) > math.Pi, a1 > a0, at(a1))
+		return curvefam.One(s), true
+	}, tols)
 }
 
 // Prop is the C03 check.
@@ -664,11 +689,24 @@ func knownPredicates() map[string]func(*fw.Violation) bool {
 			return has(v, "quad-collinear", "cube-collinear", "quad-closed", "cube-closed")
 		},
 		"cusp-bezier": func(v *fw.Violation) bool { return has(v, "cube-cusp") },
+		// an arc of an ellipse with an axis ratio below 10
 		"ellipse-arc": func(v *fw.Violation) bool {
 			_, sps, _ := caseClasses(v.Case)
 			for _, sp := range sps {
 				for _, sg := range sp.Segs {
-					if sg.Kind == oracle.CmdArc && sg.Rx != sg.Ry {
+					if sg.Kind == oracle.CmdArc && sg.Rx != sg.Ry && sg.Rx < 10*sg.Ry && sg.Ry < 10*sg.Rx {
+						return true
+					}
+				}
+			}
+			return false
+		},
+		// an arc of an ellipse with an axis ratio of 10 or more
+		"thin-ellipse-arc": func(v *fw.Violation) bool {
+			_, sps, _ := caseClasses(v.Case)
+			for _, sp := range sps {
+				for _, sg := range sp.Segs {
+					if sg.Kind == oracle.CmdArc && (sg.Rx >= 10*sg.Ry || sg.Ry >= 10*sg.Rx) {
 						return true
 					}
 				}
